@@ -358,3 +358,355 @@ func Harness_C11_labels() {
 		V.Assert(want, "Encrypt accepted recipients with different label sets")
 	}
 }
+
+// ---------------------------------------------------------------------------
+// C06: randomness roles and nonce uniqueness
+
+func indexOfSame(x []byte, list [][]byte) int {
+	for k, d := range list {
+		if len(d) == len(x) && V.Same(x, d) {
+			return k
+		}
+	}
+	return -1
+}
+
+// Harness_C06_roles: one encryption to 1..2 native recipients: the file key,
+// the payload nonce and each ephemeral secret are distinct CSPRNG draws, used
+// as they are; nothing comes from a non-cryptographic generator; the chunk
+// nonces are a counter from zero with the final flag on the last chunk only.
+func Harness_C06_roles() {
+	V.InstallTape()
+	idA, idB := symIdentity("skA"), symIdentity("skB")
+	var seen [][]byte
+	spy := &absRecipient{id: "spy", stanzas: 1, seen: &seen}
+	recips := []Recipient{idA.Recipient(), plainRecipient{spy}}
+	if V.Bool("two") {
+		recips = append(recips, idB.Recipient())
+	}
+	P := V.Bytes("P", payloadLen())
+	before := len(V.Draws())
+	var file bytes.Buffer
+	w, err := Encrypt(&file, recips...)
+	V.Assert(err == nil, "Encrypt failed")
+	if err != nil {
+		return
+	}
+	headerLen := file.Len() - 16
+	w.Write(P)
+	V.Assert(w.Close() == nil, "Close failed")
+	V.Reach("encrypted")
+	if !V.Symbolic() {
+		return
+	}
+	draws := V.Draws()[before:]
+	V.Assert(len(seen) == 1 && len(seen[0]) == 16, "recipient did not see one 16-byte file key")
+	fk := indexOfSame(seen[0], draws)
+	V.Assert(fk >= 0, "the file key is not a CSPRNG draw used as it is")
+	nonce := file.Bytes()[headerLen : headerLen+16]
+	nk := indexOfSame(nonce, draws)
+	V.Assert(nk >= 0, "the payload nonce is not a CSPRNG draw used as it is")
+	V.Assert(nk != fk, "file key and payload nonce are the same draw")
+	used := map[int]bool{fk: true, nk: true}
+	scalars := V.BaseScalars()
+	nEph := 0
+	for _, sc := range scalars {
+		if V.Same(sc, idA.secretKey) || V.Same(sc, idB.secretKey) {
+			continue // the identities' own public-key derivations
+		}
+		nEph++
+		k := indexOfSame(sc, draws)
+		V.Assert(k >= 0, "an ephemeral secret is not a CSPRNG draw used as it is")
+		V.Assert(!used[k], "an ephemeral secret shares its draw with another secret")
+		used[k] = true
+	}
+	nNative := 1
+	if len(recips) == 3 {
+		nNative = 2
+	}
+	V.Assert(nEph == nNative, "not exactly one ephemeral secret per native stanza")
+	V.Assert(V.WeakDraws() == 0, "a non-cryptographic generator was consulted")
+	// chunk nonces: seals under the stream key are the last ones in the log
+	c := V.ChunkSize()
+	chunks := (len(P) + c - 1) / c
+	if chunks == 0 {
+		chunks = 1
+	}
+	nonces := V.SealNonces()
+	keys := V.SealKeys()
+	V.Assert(len(nonces) >= chunks, "fewer seals than chunks")
+	first := len(nonces) - chunks
+	for k := 0; k < chunks; k++ {
+		want := make([]byte, 12)
+		want[10] = byte(k) // counter in the 11 leading bytes, big endian (k < 256 here)
+		if k == chunks-1 {
+			want[11] = 1
+		}
+		V.Assert(bytes.Equal(nonces[first+k], want), "chunk nonce is not counter || final flag")
+		V.Assert(V.Same(keys[first+k], keys[first]), "chunks sealed under different keys")
+	}
+}
+
+// Harness_C06_two_files: two encryptions in one process share no draw.
+func Harness_C06_two_files() {
+	V.InstallTape()
+	idA := symIdentity("skA")
+	var f1, f2 bytes.Buffer
+	w1, e1 := Encrypt(&f1, idA.Recipient())
+	n1 := len(V.Draws())
+	w2, e2 := Encrypt(&f2, idA.Recipient())
+	V.Assert(e1 == nil && e2 == nil, "Encrypt failed")
+	if e1 != nil || e2 != nil {
+		return
+	}
+	w1.Close()
+	w2.Close()
+	V.Reach("encrypted")
+	V.Assert(!bytes.Equal(f1.Bytes(), f2.Bytes()), "two encryptions of the same input are identical")
+	if !V.Symbolic() {
+		return
+	}
+	draws := V.Draws()
+	V.Assert(n1 >= 3 && len(draws) == 2*n1, "the two encryptions did not draw the same number of fresh values")
+	// role by role the second file uses later draws than the first
+	h1, h2 := f1.Len()-16-16, f2.Len()-16-16
+	k1 := indexOfSame(f1.Bytes()[h1:h1+16], draws)
+	k2 := indexOfSame(f2.Bytes()[h2:h2+16], draws)
+	V.Assert(k1 >= 0 && k1 < n1 && k2 >= n1, "payload nonces of the two files are not separate draws")
+}
+
+// ---------------------------------------------------------------------------
+// C10: passphrase recipients stand alone
+
+// Harness_C10_encrypt_mix: a ScryptRecipient together with any other
+// recipient (abstract recipient with arbitrary labels, or another
+// ScryptRecipient) is refused; alone it is accepted.
+func Harness_C10_encrypt_mix() {
+	V.InstallTape()
+	pw := V.Bytes("pw", 3)
+	sr := &ScryptRecipient{password: pw, workFactor: 2}
+	var seen [][]byte
+	other := &absRecipient{id: "o", stanzas: 1, seen: &seen}
+	var recips []Recipient
+	alone := false
+	switch V.Int("mix", 0, 5) {
+	case 0:
+		recips = []Recipient{sr}
+		alone = true
+	case 1:
+		recips = []Recipient{sr, plainRecipient{other}}
+	case 2:
+		recips = []Recipient{plainRecipient{other}, sr}
+	case 3:
+		other.labels = []string{string(V.Bytes("label", 32))}
+		recips = []Recipient{sr, other}
+	case 4:
+		other.labels = []string{string(V.Bytes("label", 32))}
+		recips = []Recipient{other, sr}
+	case 5:
+		sr2 := &ScryptRecipient{password: V.Bytes("pw2", 3), workFactor: 2}
+		recips = []Recipient{sr, sr2}
+	}
+	dst := &countingWriter{}
+	w, err := Encrypt(dst, recips...)
+	if V.Symbolic() && len(other.labels) == 1 {
+		// A9: a label chosen by another party does not collide with the fresh
+		// 128-bit random label of the passphrase recipient
+		for _, d := range V.Draws() {
+			if len(d) == 16 {
+				V.Assume(other.labels[0] != hexString(d))
+			}
+		}
+	}
+	if alone {
+		V.Reach("alone")
+		V.Assert(err == nil && w != nil, "a lone passphrase recipient was refused")
+	} else {
+		V.Reach("mixed")
+		V.Assert(err != nil && w == nil, "a passphrase recipient was accepted together with another recipient")
+		V.Assert(dst.writes == 0, "bytes were written although the recipient list was refused")
+	}
+}
+
+func hexString(b []byte) string {
+	const digits = "0123456789abcdef"
+	out := make([]byte, 0, 2*len(b))
+	for _, c := range b {
+		out = append(out, digits[c>>4], digits[c&15])
+	}
+	return string(out)
+}
+
+// Harness_C10_unwrap_alone: a passphrase identity rejects every header in
+// which an scrypt stanza is not the only stanza, wherever it stands.
+func Harness_C10_unwrap_alone() {
+	id := &ScryptIdentity{password: V.Bytes("pw", 3), maxWorkFactor: V.Int("max", 1, 3)}
+	n := V.Int("n", 1, 3)
+	at := V.Int("at", 0, n-1)
+	var stanzas []*Stanza
+	for k := 0; k < n; k++ {
+		if k == at {
+			stanzas = append(stanzas, &Stanza{Type: "scrypt", Args: []string{"AAAAAAAAAAAAAAAAAAAAAA", "1"}, Body: V.Bytes("body", 32)})
+		} else {
+			stanzas = append(stanzas, &Stanza{Type: "other", Args: []string{"x"}, Body: V.Bytes("o"+string(rune('0'+k)), 2)})
+		}
+	}
+	fk, err := id.Unwrap(stanzas)
+	if n > 1 {
+		V.Reach("mixed")
+		V.Assert(fk == nil && err != nil && !errors.Is(err, ErrIncorrectIdentity), "scrypt stanza among other stanzas was not rejected outright")
+		if V.Symbolic() {
+			V.Assert(len(V.ScryptWork()) == 0, "key derivation ran for a header that had to be rejected")
+		}
+	} else {
+		V.Reach("alone")
+	}
+}
+
+// Harness_C10_workfactor: the work-factor argument is an arbitrary string of
+// 0..maxlen bytes: scrypt runs only if it is a canonical positive decimal not
+// above the configured maximum, and then with N = 2^value.
+func Harness_C10_workfactor() {
+	max := V.Int("max", 1, V.Param("maxmax", 30))
+	id := &ScryptIdentity{password: V.Bytes("pw", 2), maxWorkFactor: max}
+	wl := V.Int("wlen", 0, V.Param("maxlen", 3))
+	w := V.Bytes("w", wl)
+	for _, c := range w {
+		V.Assume(printableNoSpace[c])
+	}
+	st := &Stanza{Type: "scrypt", Args: []string{"AAAAAAAAAAAAAAAAAAAAAA", string(w)}, Body: V.Bytes("body", 32)}
+	fk, err := id.Unwrap([]*Stanza{st})
+	V.Reach("returned")
+	if !V.Symbolic() {
+		return
+	}
+	work := V.ScryptWork()
+	// reference: canonical positive decimal
+	canon := wl > 0
+	val := 0
+	for i, c := range w {
+		isDigit := digitClass[c]
+		if !isDigit || (i == 0 && c == '0') {
+			canon = false
+		}
+		if val < 1000 {
+			val = val*10 + int(c-'0')
+		}
+	}
+	if !canon || val > max {
+		V.Assert(len(work) == 0, "key derivation ran for a non-canonical or too large work factor")
+		V.Assert(fk == nil && err != nil, "bad work factor was not rejected")
+	} else {
+		V.Assert(len(work) == 1 && work[0] == 1<<uint(val), "key derivation did not run with N = 2^workfactor")
+	}
+}
+
+var printableNoSpace = func() (t [256]bool) {
+	for i := 33; i <= 126; i++ {
+		t[i] = true
+	}
+	return
+}()
+
+var digitClass = func() (t [256]bool) {
+	for i := '0'; i <= '9'; i++ {
+		t[i] = true
+	}
+	return
+}()
+
+// ---------------------------------------------------------------------------
+// C03: any change to the header invalidates the file
+
+func honestFile(stanzas int, P []byte) (file []byte, headerLen int, fileKey []byte) {
+	var seen [][]byte
+	rec := &absRecipient{id: "h", stanzas: stanzas, seen: &seen}
+	var buf bytes.Buffer
+	w, err := Encrypt(&buf, rec)
+	V.Assert(err == nil, "Encrypt failed")
+	headerLen = buf.Len() - 16
+	w.Write(P)
+	w.Close()
+	return buf.Bytes(), headerLen, seen[0]
+}
+
+// Harness_C03_byte_flip: one byte of the header of an honest file is replaced
+// by an arbitrary different byte: Decrypt returns no reader, for an identity
+// that unwraps the original file key whatever it is shown.
+func Harness_C03_byte_flip() {
+	V.InstallTape()
+	P := V.Bytes("P", V.Int("n", 0, 1))
+	file, hl, fk := honestFile(V.Int("stanzas", 1, V.Param("maxstanzas", 2)), P)
+	stride := V.Param("stride", 1)
+	pos := V.Int("posk", 0, (hl-1)/stride)*stride + V.Param("phase", 0)
+	V.Assume(pos < hl)
+	c := V.Byte("c")
+	V.Assume(c != file[pos])
+	t := append([]byte(nil), file...)
+	t[pos] = c
+	var log []int
+	id := &absIdentity{id: 0, outcome: 0, fileKey: fk, log: &log}
+	r, err := Decrypt(bytes.NewReader(t), id)
+	V.Reach("returned")
+	V.Assert(r == nil && err != nil, "a file with an altered header byte was accepted")
+}
+
+// Harness_C03_structural: the header is replaced by an arbitrary well-formed
+// header (other stanzas, other order, other count, other MAC) that differs from
+// the original in at least one byte: Decrypt returns no reader.
+func Harness_C03_structural() {
+	V.InstallTape()
+	P := V.Bytes("P", V.Int("n", 0, 1))
+	file, hl, fk := honestFile(V.Int("stanzas", 1, 2), P)
+	var hb []byte
+	hb = append(hb, "age-encryption.org/v1\n"...)
+	ns := V.Int("ns", 0, V.Param("maxstanzas", 2))
+	for k := 0; k < ns; k++ {
+		id := string(rune('0' + k))
+		hb = append(hb, "-> "...)
+		hb = append(hb, argBytes("t"+id, V.Int("tl"+id, 1, 4))...)
+		if V.Bool("arg" + id) {
+			hb = append(hb, ' ')
+			hb = append(hb, argBytes("a"+id, 1)...)
+		}
+		hb = append(hb, '\n')
+		// body: 0 or 3 bytes (4 base64 characters), canonical by construction
+		if V.Bool("body" + id) {
+			hb = append(hb, b64Bytes("b"+id, 4)...)
+		}
+		hb = append(hb, '\n')
+	}
+	hb = append(hb, "--- "...)
+	hb = append(hb, b64Bytes("mac", 43)...)
+	hb = append(hb, '\n')
+	V.Assume(!bytes.Equal(hb, file[:hl]))
+	t := append(hb, file[hl:]...)
+	var log []int
+	id := &absIdentity{id: 0, outcome: 0, fileKey: fk, log: &log}
+	r, err := Decrypt(bytes.NewReader(t), id)
+	V.Reach("returned")
+	V.Assert(r == nil && err != nil, "a file with a different header was accepted")
+}
+
+var b64Alphabet = func() (t [256]bool) {
+	for _, c := range "ABCDEFGHIJKLMNOPQRSTUVWXYZabcdefghijklmnopqrstuvwxyz0123456789+/" {
+		t[c] = true
+	}
+	return
+}()
+
+func b64Bytes(name string, n int) []byte {
+	b := V.Bytes(name, n)
+	for _, c := range b {
+		V.Assume(b64Alphabet[c])
+	}
+	return b
+}
+
+func argBytes(name string, n int) []byte {
+	b := V.Bytes(name, n)
+	for _, c := range b {
+		V.Assume(printableNoSpace[c])
+	}
+	return b
+}
